@@ -62,7 +62,11 @@ Definition verdict (c : c3case) : N :=
       negb (match spec_decode kind b, dec with
             | Some m, DOk m' 0 => packet_eqb m m' && reenc_ok && list_eqb N.eqb (rle_expand reenc) b
             | _, _ => false end) in
-    (if mismatch then 1 else 0) + (if panicked || canon_bad then 2 else 0)
+    (* known class: the decoded model has a path index outside the path and the encoder refuses it *)
+    let idx_class := canon_bad && negb reenc_ok &&
+                     match dec with DOk m' _ => path_index_out_of_range m' | _ => false end in
+    (if mismatch then 1 else 0) + (if panicked || (canon_bad && negb idx_class) then 2 else 0)
+    + (if idx_class then 64 else 0)
   end.
 
 Definition verdicts (cs : list c3case) : list N := map verdict cs.
